@@ -106,6 +106,15 @@ type pcGen struct {
 	fns     []*pcFn
 	structs []string
 	sdone   map[string]bool
+	tree    *ptMode // nil: the parser core (-out-core); otherwise the tree passes (-out-tree, progtree.go)
+}
+
+// the binder of the world parameter
+func (g *pcGen) worldB() string {
+	if g.tree != nil {
+		return "(W : World St)"
+	}
+	return "(W : World Context)"
 }
 
 // ---- target language: pgLet / pgIf / pgTerm of progfacts.go plus a match ----
@@ -191,6 +200,7 @@ type pcCtx struct {
 	ctxObj   map[types.Object]bool   // variables of type *parsley.Context
 	recRef   map[*pcFn]string        // how to refer to a member of the current cycle here
 	stateV   map[types.Object]string // inside a state-passing closure: captured variables that are assigned
+	boxed    map[types.Object]bool   // tree mode: local variables a function literal captures and assigns (cells of the store)
 }
 
 var pcKeywords = map[string]bool{"W": true, "s_": true, "Data": true, "Node": true, "Err": true, "Cause": true, "Parser": true,
@@ -198,7 +208,7 @@ var pcKeywords = map[string]bool{"W": true, "s_": true, "Data": true, "Node": tr
 	"Option": true, "default": true, "r_": true, "NewError": true, "NewErrorf": true, "IsNotFoundError": true, "IsWhitespaceError": true}
 
 func (c *pcCtx) fresh(base string) string {
-	for pgKeywords[base] || pcKeywords[base] || c.taken[base] || strings.HasPrefix(base, "rec_") {
+	for pgKeywords[base] || pcKeywords[base] || (c.g.tree != nil && ptKeywords[base]) || c.taken[base] || strings.HasPrefix(base, "rec_") {
 		base += "'"
 	}
 	c.taken[base] = true
@@ -257,7 +267,11 @@ var pcStructOK = map[string]bool{"parsley.Result": true, "parsley.Context": true
 func pcIsCtx(t types.Type) bool { return pcNamedPath(t) == "*parsley.Context" }
 
 func (g *pcGen) leanType(t types.Type) (string, bool) {
-	if s, ok := pcFixedType[pcNamedPath(t)]; ok {
+	if g.tree != nil {
+		if s, ok, done := g.treeType(t); done {
+			return s, ok
+		}
+	} else if s, ok := pcFixedType[pcNamedPath(t)]; ok {
 		return s, true
 	}
 	if pcIsCtx(t) {
@@ -347,7 +361,11 @@ func (g *pcGen) resultType(sig *types.Signature, first []string) (string, bool) 
 }
 
 func (g *pcGen) structType(n *types.Named, s *types.Struct) (string, bool) {
-	if !pcStructOK[pcNamedPath(n)] {
+	if g.tree != nil {
+		if !ptStructOK[pcNamedPath(n)] {
+			return "", false
+		}
+	} else if !pcStructOK[pcNamedPath(n)] {
 		return "", false
 	}
 	name := pgField(n.Obj().Name())
@@ -386,6 +404,14 @@ func pcZeroOf(lt string) string {
 		return "Parser.nil"
 	case lt == "ReaderH":
 		return "()"
+	case lt == "Value":
+		return "Value.nil"
+	case lt == "Interp":
+		return "Interp.nil"
+	case lt == "Ptr":
+		return "0"
+	case strings.HasPrefix(lt, "(SMap "):
+		return "[]"
 	case lt == "Bytes" || lt == "Opaque" || lt == "IntSet" || lt == "IntMap" || strings.HasPrefix(lt, "(List "):
 		return "[]"
 	case strings.HasPrefix(lt, "(Map "):
@@ -428,6 +454,9 @@ func (c *pcCtx) structLit(n *types.Named, s *types.Struct, given map[string]stri
 
 // how a value of concrete type `have` is stored in a variable of interface type `want`
 func (c *pcCtx) inject(v string, have, want types.Type) string {
+	if c.g.tree != nil {
+		return c.treeInject(v, have, want)
+	}
 	if have == nil || want == nil || !types.IsInterface(want) || types.IsInterface(have) {
 		return v
 	}
